@@ -11,7 +11,8 @@ use std::collections::{BTreeMap, HashSet};
 use xot::{NameId, NamespaceId, Node, PrefixId, Xot};
 
 const AKEYS: [(&str, &str); 3] = [("", "a"), ("", "b"), (X, "c")];
-const AVALS: [&str; 2] = ["1", "2"];
+// the empty string is a value like any other (and equals the "value" of an absent key under unwrap_or_default)
+const AVALS: [&str; 2] = ["", "2"];
 const PKEYS: [&str; 3] = ["", "p", "q"];
 const PVALS: [&str; 2] = [X, Y];
 
